@@ -417,6 +417,16 @@ func (fr *Frame) preludeCall(st *State, name string, fn *ssa.Function, args []Va
 		elem := chanElem(cc.Args[0].Type())
 		es := ex.ctx.SortOf(elem)
 		return Val{T: Select(Select(ex.get(st, "ChanRecv_"+typeKey(elem), ArraySort(SRef, ArraySort(SInt, es))), args[0].T), args[1].T)}, true
+	case "__neverClosed":
+		ex.trusted["neverClosed(ch): nobody (no goroutine) ever closes this channel -- assumed where a contract requires it"] = true
+		return Val{T: Select(ex.get(st, "ChanNeverClosed_"+typeKey(chanElem(cc.Args[0].Type())), ArraySort(SRef, SBool)), args[0].T)}, true
+	case "__sentStamp":
+		return Val{T: Select(Select(ex.get(st, "ChanSentStamp_"+typeKey(chanElem(cc.Args[0].Type())), ArraySort(SRef, ArraySort(SInt, SInt))), args[0].T), args[1].T)}, true
+	case "__recvTotal":
+		return Val{T: ex.get(st, "LogN_recv_"+sanitize(typeKey(chanElem(cc.Args[0].Type()))), SInt)}, true
+	case "__recvTotalAt":
+		elem := chanElem(cc.Args[0].Type())
+		return Val{T: Select(ex.get(st, "Log_recv_"+sanitize(typeKey(elem)), ArraySort(SInt, ex.ctx.SortOf(elem))), args[1].T)}, true
 	case "__drained":
 		return Val{T: Select(ex.get(st, "ChanDrained_"+typeKey(chanElem(cc.Args[0].Type())), ArraySort(SRef, SBool)), args[0].T)}, true
 	case "__closed":
